@@ -127,7 +127,7 @@ namespace cs
                             what, n, k, long(ct.alive.size()) - long(alive0));
                 // (a pool may have grown while serving the request: then more is free than before, never less)
                 if (alloc == 2 ? footprint(c, alloc) < foot0 : footprint(c, alloc) != foot0)
-                    violate("C20", "memory_leaked", "%s (n=%ld, failure at %ld): the memory obtained for the "
+                    violate("C20,C09", "memory_leaked", "%s (n=%ld, failure at %ld): the memory obtained for the "
                                                     "object was not given back",
                             what, n, k);
             }
